@@ -531,9 +531,11 @@ fn gen_scenario(rng: &mut Prng, run_seed: u64) -> Option<Scn> {
     let default_ntt = spec.scheme != BFV;
     let mut shared_elts: Vec<usize> = (0..rng.range(1, 3)).map(|_| 2 * rng.usize_below(n) + 1).collect();
     shared_elts.dedup();
+    // now and then use as many different elements as possible (a cache with a capacity shows only then)
+    let many_elts = rng.chance(1, 5);
     let mut threads = Vec::new();
     for _ in 0..nthreads {
-        let nops = if focus == 4 { rng.range(2, 4) } else { rng.range(1, 3) };
+        let nops = if focus == 4 || many_elts { rng.range(2, 4) } else { rng.range(1, 3) };
         let mut ops = Vec::new();
         for _ in 0..nops {
             let pickset: &[u64] = match focus {
@@ -560,20 +562,21 @@ fn gen_scenario(rng: &mut Prng, run_seed: u64) -> Option<Scn> {
                 4 => Op::Pk { save_seed: rng.coin() },
                 5 => {
                     let mut elts = Vec::new();
-                    for _ in 0..rng.range(1, 3) {
-                        elts.push(if rng.chance(2, 3) { *rng.pick(&shared_elts) } else { 2 * rng.usize_below(n) + 1 });
+                    for _ in 0..(if many_elts { rng.range(3, 6) } else { rng.range(1, 3) }) {
+                        elts.push(if !many_elts && rng.chance(2, 3) { *rng.pick(&shared_elts) } else { 2 * rng.usize_below(n) + 1 });
                     }
                     Op::Galois { elts, save_seed: rng.coin() }
                 }
                 6 => Op::KSwitch { save_seed: rng.coin(), seed },
                 7 => {
+                    let elt = if many_elts { 2 * rng.usize_below(n) + 1 } else { *rng.pick(&shared_elts) };
                     if spec.scheme == BFV {
-                        Op::ApplyGaloisPlain { elt: *rng.pick(&shared_elts), level, seed }
+                        Op::ApplyGaloisPlain { elt, level, seed }
                     } else {
-                        Op::ApplyGalois { elt: *rng.pick(&shared_elts), level, seed }
+                        Op::ApplyGalois { elt, level, seed }
                     }
                 }
-                8 => Op::ApplyGaloisPlain { elt: if rng.coin() { *rng.pick(&shared_elts) } else { 2 * rng.usize_below(n) + 1 }, level, seed },
+                8 => Op::ApplyGaloisPlain { elt: if !many_elts && rng.coin() { *rng.pick(&shared_elts) } else { 2 * rng.usize_below(n) + 1 }, level, seed },
                 9 => Op::Encrypt { sym: rng.coin(), seed },
                 10 => Op::Encode { seed },
                 _ => {
